@@ -159,8 +159,13 @@ def save_flow(fn, x):
         tests = [q for q in p if isinstance(q, tuple)]
         if ("test", "engine == 'zarr'", True) in tests:
             continue
-        # the close of the previous dataset is irrelevant to the flow
+        # the previous (possibly lazily loaded) dataset is closed BEFORE the file is replaced under it
+        holds = ("test", f"{full} is not None", True) in tests
         p = [q for q in p if not (isinstance(q, tuple) and q[1] in ("engine == 'zarr'", f"{full} is not None"))]
+        closes = [i for i, q in enumerate(p) if isinstance(q, ast.Expr) and ast.unparse(q) == f"{full}.close()"]
+        tries0 = [i for i, q in enumerate(p) if isinstance(q, ast.Try)]
+        if x == "ds" and holds and (len(closes) != 1 or not tries0 or closes[0] > tries0[0]):
+            raise Refused(fn, "the held dataset is not closed before the new file is written and moved into place")
         p = [q for q in p if not (isinstance(q, ast.Expr) and ast.unparse(q) == f"{full}.close()")]
         paths.append(p)
     shapes = set()
@@ -260,8 +265,8 @@ def generate(repo):
             and isinstance(v.args[0], ast.List)):
         raise Refused(v, "sampler rows are not concatenated with pd.concat")
     kw = {k.arg: ast.unparse(k.value) for k in v.keywords}
-    if kw.get("ignore_index") != "True" or kw.get("axis", "0") != "0":
-        raise Refused(v, "pd.concat keywords")
+    if kw.get("ignore_index") != "True" or kw.get("axis", "0") != "0" or kw.get("join", "'outer'") != "'outer'":
+        raise Refused(v, "pd.concat keywords (rows are appended, every column of either table is kept)")
     order = "; ".join(side(e) for e in v.args[0].elts)
     out += [f"Definition gen_sadd_flow : sadd_flow := mk_sadd_flow {req} [{'; '.join(stages)}] {first} [{order}] {els}.", ""]
     out += [f"Definition gen_ssave_flow : save_flow := {save_flow(find_function(ftree, 'Sampler.save_full_df'), 'df')}.", ""]
